@@ -64,6 +64,8 @@ pub fn directions(geometry: &str) -> Vec<[f64; 3]> {
         "pyramidal" => { let t = 0.35f64; vec![norm([1., 0., -t]), norm([-0.5, s3 / 2., -t]), norm([-0.5, -s3 / 2., -t])] }
         // three mutually perpendicular bonds along the axes (what a builder emits for a "90 degree" pyramid, and PH3 is close to it)
         "orthopyramid" => vec![[1., 0., 0.], [0., 1., 0.], [0., 0., 1.]],
+        // three neighbours, two of them exactly opposite each other (ClF3 as drawn on a grid)
+        "tshape" => vec![[1., 0., 0.], [-1., 0., 0.], [0., 1., 0.]],
         "tetrahedral" => vec![norm([1., 1., 1.]), norm([1., -1., -1.]), norm([-1., 1., -1.]), norm([-1., -1., 1.])],
         "square" => vec![[1., 0., 0.], [0., 1., 0.], [-1., 0., 0.], [0., -1., 0.]],
         "tbp" => vec![[0., 0., 1.], [0., 0., -1.], [1., 0., 0.], [-0.5, s3 / 2., 0.], [-0.5, -s3 / 2., 0.]],
